@@ -341,7 +341,9 @@ func (ex *Exec) chanSend(fr *Frame, cv, v Value, pos token.Pos) {
 	if ex.cfg.Races {
 		if c := ex.chanOf(cv); c != nil {
 			ex.syncOn(c)
-			defer ex.syncOn(c)
+			ex.chanSend0(fr, cv, v, pos)
+			ex.syncOn(c) // (not deferred: a killed thread unwinds through here)
+			return
 		}
 	}
 	ex.chanSend0(fr, cv, v, pos)
@@ -380,7 +382,9 @@ func (ex *Exec) chanRecv(fr *Frame, cv Value, commaOk bool, pos token.Pos) Value
 	if ex.cfg.Races {
 		if c := ex.chanOf(cv); c != nil {
 			ex.syncOn(c)
-			defer ex.syncOn(c)
+			r := ex.chanRecv0(fr, cv, commaOk, pos)
+			ex.syncOn(c)
+			return r
 		}
 	}
 	return ex.chanRecv0(fr, cv, commaOk, pos)
